@@ -264,6 +264,10 @@ theorem step_disk (env : Env) (hadv : env.advInvalid = true) (s : State) (sp : S
         exact up _ _ (blockInvalid_disk env s sp n hD hI hash (fun e he => by rw [hsp] at he; cases he))
       | some e0 =>
         simp only
+        by_cases hpn : panics s (keyOf hash) = true
+        · simp only [hpn, ↓reduceIte]
+          rw [blockInvalid_panics s hash hpn]; exact up _ _ hD
+        simp only [hpn, Bool.false_eq_true, ↓reduceIte]
         have htaint : Disk env (blockInvalid s hash).1 { isOpen := true, m := AL.set sp.m (keyOf hash) { e0 with tainted := true } } n := by
           refine blockInvalid_disk env s _ n ?_ hI hash ?_
           · refine disk_spec env s sp _ n hD (keyOf hash) (fun k' hne => by simp only [AL.get_set, if_neg hne]) ?_
